@@ -77,6 +77,17 @@ func (o *Oracle) checkLease(inc *Inc) {
 	if now-tq > 2*lease {
 		w.violate("C13", "C13/leader-outlives-lease", "%s still reports Leader (term %d) %.1fms after the last moment a voter quorum had answered it; LeaderLeaseTimeout=%v",
 			inc.tag, inc.r.CurrentTerm(), float64(now-tq)/1e6, lease)
+		// C17, "while the server runs [a future] completes within bounded time ... for example ErrLeadershipLost when
+		// leadership is lost mid-commit": a write handed to this server after it last heard from a voter quorum can only
+		// end when the server gives up leadership, which is overdue
+		for _, c := range w.cl.calls {
+			if c.Node == n.idx && c.Inc == inc.n && c.ReturnSeq == 0 && !c.Crashed && (c.Kind == "apply" || c.Kind == "barrier" || c.Kind == "verify") && c.InvokeAt > tq && now-c.InvokeAt > 2*lease {
+				v := w.violate("C17", "C17/future-pending-on-leader-without-quorum", "%s on %s issued %.1fms ago has neither succeeded nor failed: the server last heard from a voter quorum %.1fms ago (LeaderLeaseTimeout=%v) and still holds on to leadership",
+					c.Kind, inc.tag, float64(now-c.InvokeAt)/1e6, float64(now-tq)/1e6, lease)
+				v.Facts["kind"] = c.Kind
+				break
+			}
+		}
 	}
 }
 
@@ -671,11 +682,16 @@ func (o *Oracle) checkRestoreReturn(c *Call, inc *Inc) {
 	if !found {
 		w.violate("C20", "C20/leader-fsm-not-restored", "%s: Restore returned nil but its FSM was never given the supplied snapshot (epoch %d)", inc.tag, epoch)
 	}
-	var base, rterm uint64
+	var base, rterm, prevLast uint64
 	for _, e := range o.epochs {
 		if e.state.Epoch == epoch {
-			base, rterm = e.base, e.term
+			base, rterm, prevLast = e.base, e.term, e.prevLast
 		}
+	}
+	if base != 0 && base <= prevLast {
+		// "every later entry gets an index above both the snapshot's index and all earlier indexes": the restored
+		// state itself sits at an index this server had already used (for an entry it had dispatched, or a snapshot)
+		w.violate("C20", "C20/index-not-burned", "%s: Restore(meta.Index=%d) put the restored state at index %d although the server's last index was already %d", inc.tag, c.PrevIndex, base, prevLast)
 	}
 	if base != 0 {
 		o.restoresOK = append(o.restoresOK, restoreOK{call: c, base: base, term: rterm, epoch: epoch})
